@@ -1208,7 +1208,7 @@ def gen_program(rng, k, allow_alias=False):
 A_KINDS = {"C02": {"lift", "simp", "comp", "compe", "tstr", "idx", "acc", "wsf", "ev", "name", "fdiv"},
            "C08": {"mem", "nc", "simp", "comp", "compe", "fdiv"}}
 X_KINDS = {"C02": {"diff", "abort", "cc-error"},
-           "C08": {"abort", "leak", "const"}}
+           "C08": {"abort", "leak", "const", "free-discipline"}}
 
 
 def floor_div_helper_table(exo_mod):
